@@ -7,8 +7,11 @@
       the model's fold of the reported changes over a gives b            (real Diff vs Apply1 semantics)
       the real ApplyChange result equals the model's fold, CID equal to b (real ApplyChange vs Apply1)
       no change reported when a = b.
-   Trees are arbitrary flat dag-pb trees: directories carry their own data id (plain directory payload or
-   one with metadata), so a and b may differ in the data of a populated directory, at the root or nested. *)
+   Trees are arbitrary flat dag-pb trees: every node carries its own label <<payload id, CID builder id>> (plain
+   directory payload or one with metadata, leaf payload; CIDv0/CIDv1/other hash), so a and b may differ in the
+   data of a populated directory, at the root or nested, or ONLY in the CID builder of some node (same bytes,
+   another CID).  The harness projects a real node to its label from its Data and the prefix of its CID, so
+   "Fn(Ev.tree) = cur" and "cur = tgt" are statements about CIDs. *)
 EXTENDS DagDiff, Json, Integers
 
 Trace == ndJsonDeserialize("trace.ndjson")
@@ -36,6 +39,7 @@ TApplied == /\ IsEvent("Applied")
             /\ \/ /\ Ev.err = "" /\ Fn(Ev.tree) = cur
                   /\ \/ Reproduces /\ EmptyOnEqual /\ Ev.cidEq = TRUE /\ UNCHANGED dev
                      \/ DataIgnored /\ Ev.cidEq = FALSE /\ dev' = dev \cup {"Dev_C14_DataIgnored"}
+                     \/ BuilderIgnored /\ Ev.cidEq = FALSE /\ dev' = dev \cup {"Dev_C14_CidBuilderIgnored"}
                \* the report is right and contains a change at the empty path; the real ApplyChange fails on it
                \/ /\ RootModUnapplied /\ Ev.err = RootModError /\ Ev.cidEq = FALSE
                   /\ dev' = dev \cup {"Dev_C14_RootMod"}
